@@ -5,6 +5,7 @@ package c17
 //            against the consensus tax equation (own big-integer tax) and ValidateTransaction.
 
 import (
+	"bytes"
 	"fmt"
 	"math/big"
 	"reflect"
@@ -354,6 +355,9 @@ func checkV1(c V1Case) error {
 	if c.Renew != "" {
 		cur.Filesize = c.Filesize
 		rev := types.FileContractRevision{ParentID: fcid, UnlockConditions: uc, FileContract: cur}
+		// the renewal is prepared from the current revision, which the caller goes on using (the clearing revision, a
+		// further payment, a second attempt): preparing must neither change it nor return a contract that shares its lists
+		revBefore := encOf(rev)
 		end := uint64(max(int64(cur.WindowStart)+c.Extend, 1))
 		np, ncoll, fee := dec(c.NewPayout), dec(c.NewCollateral), dec(c.MinerFee)
 		sp, cpr, maxc, rcost := dec(c.StoragePrice), dec(c.CollPrice), dec(c.MaxCollateral), dec(c.RenewCost)
@@ -423,6 +427,18 @@ func checkV1(c V1Case) error {
 		}
 		if herr := gen.AppendHazard(reflect.ValueOf(&nfc).Elem()); herr != nil {
 			return failf("v1/"+stage+"/shared-memory", "%s: %v", stage, herr)
+		}
+		if encOf(rev) != revBefore {
+			return failf("v1/"+stage+"/input-modified", "%s changed the revision it was prepared from", stage)
+		}
+		{
+			both := struct {
+				In  types.FileContractRevision
+				Out types.FileContract
+			}{rev, nfc}
+			if herr := gen.AppendHazard(reflect.ValueOf(&both).Elem()); herr != nil {
+				return failf("v1/"+stage+"/shares-memory-with-input", "%s: the prepared contract and the revision it was prepared from: %v", stage, herr)
+			}
 		}
 		if toBig(basePrice).Cmp(wantBase) != 0 {
 			return failf("v1/"+stage+"/base-price", "%s base price %v, want %v", stage, basePrice, wantBase)
@@ -572,3 +588,12 @@ func checkTax(c V1Case) error {
 }
 
 func TestReplayTaxEnum(t *testing.T) { stats.Replay(t, "TestTaxEnum", checkTax) }
+
+// encOf is the binary form of a revision (a byte snapshot for before/after comparisons).
+func encOf(r types.FileContractRevision) string {
+	var buf bytes.Buffer
+	e := types.NewEncoder(&buf)
+	r.EncodeTo(e)
+	e.Flush()
+	return buf.String()
+}
